@@ -32,6 +32,10 @@ Definition init_wait : Z := init_wait_s * sec.          (* time.After in ServeHT
 (* time.Duration(math.Pow(2, attempt)) * baseDelay, capped *)
 Definition delay (i : nat) : Z := Z.min (2 ^ Z.of_nat i * base_delay) max_delay.
 
+(* the pauses after attempts i, i+1, ..., i+n-1 *)
+Fixpoint delays_from (i n : nat) : Z :=
+  match n with O => 0 | S l => delay i + delays_from (S i) l end.
+
 Record world := mkWorld {
   w_script : list answer;      (* what the provider will answer next *)
   w_healthy : doc;             (* ... and after the script *)
